@@ -66,6 +66,8 @@ def restart_compare(sess, d, gen, snap, min_index, label, seqm):
     before = sess.call("dump", **gen.dump_args())
     m = sess.call("metrics")
     sess.call("sleep", ms=120)   # in-flight blocking file writes land
+    if not noderig.settle_on_disk(sess, d):
+        return sess, {"symptom": "not-quiescent-before-stop", "inconclusive": True, "detail": {"applied_on_disk": noderig.applied_index_on_disk(d), "metrics": m}}
     sess.kill()
     sess = noderig.NodeSession(d, snapshot_size=snap)
     b2 = sess.call("barrier", min_index=m.get("last_log_index", 0), bound_ms=RECOVER_BOUND_MS)
